@@ -159,9 +159,9 @@ func known(prop, key string) bool {
 
 type collector struct {
 	mu         sync.Mutex
-	Prop       string           `json:"property"`
-	Part       string           `json:"part"`
-	Evals      int64            `json:"evaluations"`
+	Prop       string `json:"property"`
+	Part       string `json:"part"`
+	Evals      int64  `json:"evaluations"`
 	hashes     map[uint64]struct{}
 	Classes    map[string]int64 `json:"classes"`
 	Samples    []any            `json:"samples"`
